@@ -6,6 +6,7 @@ import (
 	"errors"
 	"fmt"
 	"io"
+	"slices"
 	"testing"
 
 	"github.com/c2FmZQ/ech"
@@ -45,6 +46,14 @@ func genRecordLen(t *rapid.T, label string, ct byte) int {
 	}
 }
 
+// ccsLen returns the size of a leading change_cipher_spec record of b (0 if none).
+func ccsLen(b []byte) int {
+	if len(b) >= 6 && b[0] == 20 {
+		return 6
+	}
+	return 0
+}
+
 // genStream draws records of types 20..23. noHello: handshake records never
 // start with msg type 1 (ClientHello) or 2 (ServerHello).
 func genStream(t *rapid.T, label string, max int) [][]byte {
@@ -64,17 +73,40 @@ func genStream(t *rapid.T, label string, max int) [][]byte {
 
 func TestC07(t *testing.T) {
 	rec := ev.Get("C07")
-	rec.Rule("first hello accepted (sealed, C03 generator) or passed through, then a client record stream (types 20-23; lengths weighted on 0 (application data), 1, 16383, 16384 and 16385..16640 for type 23), a backend stream (optional ServerHello, then records) split at drawn points over Write calls, a chunk schedule for transport reads (1 byte .. whole flight), caller buffer sizes 1..70000, and optionally a transport cut (EOF or error) at a drawn offset after the first record; in a third of the cases the reads of a second, unrelated accepted connection are interleaved (connections share nothing). Oracle: concat(Read) == rewritten hello || rest up to the cut, error only after all bytes; transport writes are a prefix of backend writes with less than one complete record withheld; Write returns (len,nil). distinct = (schedule hash, cut, record lengths); non-trivial = a record straddles two chunks or two writes")
-	rec.Mandatory("chunks_1byte", "cut_in_header", "cut_in_body", "record_len0", "record_gt16384", "accepted", "passthrough", "backend_split", "nontrivial", "neighbour_conn")
+	rec.Rule("first hello accepted (sealed, C03 generator) or passed through, then a client record stream (types 20-23; lengths weighted on 0 (application data), 1, 16383, 16384 and 16385..16640 for type 23), a backend stream (optional ServerHello, then records) split at drawn points over Write calls, a chunk schedule for transport reads (1 byte .. whole flight), caller buffer sizes 1..70000, and optionally a transport cut (EOF or error) at a drawn offset after the first record; in an eighth of the cases the backend's first record is a HelloRetryRequest and the client stream continues with (change_cipher_spec and) a well-formed retried hello, expected as its reconstructed inner hello followed by exactly the rest; in a third of the cases the reads of a second, unrelated accepted connection are interleaved (connections share nothing). Oracle: concat(Read) == rewritten hello || rest up to the cut, error only after all bytes; transport writes are a prefix of backend writes with less than one complete record withheld; Write returns (len,nil). distinct = (schedule hash, cut, record lengths); non-trivial = a record straddles two chunks or two writes")
+	rec.Mandatory("chunks_1byte", "cut_in_header", "cut_in_body", "record_len0", "record_gt16384", "accepted", "passthrough", "backend_split", "nontrivial", "neighbour_conn", "hrr_then_retried_hello")
 	rapid.Check(t, func(t *rapid.T) {
 		accepted := rapid.Bool().Draw(t, "accepted")
 		var first, wantFirst []byte
 		var keys []*hello.Key
+		// HelloRetryRequest mode: the backend's first record is an HRR, the client's next
+		// records are an optional change_cipher_spec and a well-formed retried hello, which
+		// the backend must receive as its reconstructed inner hello - and then the rest
+		hrrMode := false
+		var retryIn, retryWant []byte // client bytes of the retry flight / what the backend receives for them
+		var hrrBytes []byte
 		if accepted {
 			sc := drawSealed(t, false)
 			first = sc.Record
 			wantFirst = hello.Record(22, 0x0303, sc.WantInner)
 			keys = []*hello.Key{sc.Key}
+			if rapid.IntRange(0, 3).Draw(t, "hrr_mode") == 0 {
+				hrrMode = true
+				in2 := sc.Tuple.Inner.Clone()
+				in2.Random = hello.GenBytes(t, "random2", 32)
+				out2 := sc.Tuple.Outer.Clone()
+				out2.Random = hello.GenBytes(t, "orandom2", 32)
+				msg2, err := sc.Sealer.SealOuter(out2, hello.Encode(hello.Compress(in2, sc.Tuple.RunStart, sc.Tuple.RunLen), make([]byte, sc.Tuple.Pad)), false)
+				if err != nil {
+					t.Fatalf("harness: %v", err)
+				}
+				if rapid.Bool().Draw(t, "ccs_before_hello2") {
+					retryIn = append(retryIn, hello.Record(20, 0x0303, []byte{1})...)
+				}
+				retryWant = append(append([]byte{}, retryIn...), hello.Record(22, 0x0303, hello.ExpectedInner(in2, out2).Message())...)
+				retryIn = append(retryIn, hello.Record(22, 0x0303, msg2)...)
+				hrrBytes = hrrRecord(sc.Tuple.Outer.SessionID)
+			}
 		} else {
 			h := hello.GenPlain(t, "plain", hello.PlainOpts{})
 			first = hello.Record(22, 0x0303, h.Message())
@@ -95,17 +127,24 @@ func TestC07(t *testing.T) {
 				cl = append(cl, "record_gt16384")
 			}
 		}
+		rest = append(append([]byte{}, retryIn...), rest...)
 		stream := append(append([]byte{}, first...), rest...)
 		// cut
 		cut := -1
 		var endErr error = io.EOF
 		if rapid.IntRange(0, 2).Draw(t, "cut?") == 0 && len(rest) > 0 {
-			cut = len(first) + uniform(t, "cut", len(rest))
+			cut = len(first) + len(retryIn) + uniform(t, "cut", len(rest)-len(retryIn)+1)
+			if cut >= len(stream) {
+				cut = len(stream) - 1
+			}
+			if cut < len(first)+len(retryIn) {
+				cut = len(first) + len(retryIn) // hrr mode: never inside the retry flight (it is replaced, not relayed)
+			}
 			if rapid.Bool().Draw(t, "cut_err") {
 				endErr = wire.ErrInjected
 			}
 			// classify
-			off := len(first)
+			off := len(first) + len(retryIn)
 			for _, r := range crecs {
 				if cut >= off && cut < off+len(r) {
 					if cut-off < 5 && cut != off {
@@ -120,10 +159,30 @@ func TestC07(t *testing.T) {
 			}
 			stream = stream[:cut]
 		}
-		want := append(append([]byte{}, wantFirst...), stream[len(first):]...)
+		want := append(append([]byte{}, wantFirst...), retryWant...)
+		want = append(want, stream[len(first)+len(retryIn):]...)
+		// record-header version bytes of the two rewritten hellos may be normalised
+		vmask := []int{1, 2}
+		if hrrMode {
+			h2 := len(wantFirst) + ccsLen(retryWant) // offset of the rewritten second hello
+			vmask = append(vmask, h2+1, h2+2)
+			cl = append(cl, "hrr_then_retried_hello")
+		}
+		masked := func(b []byte) []byte {
+			c := append([]byte{}, b...)
+			for _, i := range vmask {
+				if i < len(c) {
+					c[i] = 0
+				}
+			}
+			return c
+		}
+		wantM := masked(want)
 		// backend stream
 		var bstream []byte
-		if rapid.Bool().Draw(t, "server_hello") {
+		if hrrMode {
+			bstream = append(bstream, hrrBytes...)
+		} else if rapid.Bool().Draw(t, "server_hello") {
 			rnd := hello.GenBytes(t, "sh_random", 32)
 			if bytes.Equal(rnd, hrrRandom) {
 				rnd[0] ^= 1
@@ -209,6 +268,11 @@ func TestC07(t *testing.T) {
 				continue
 			}
 			doWrite := bpos < len(bstream) && (readDone || rapid.Bool().Draw(t, "op_write"))
+			if hrrMode && len(got) < len(wantFirst) {
+				doWrite = false // the backend reads the first hello before it answers
+			} else if hrrMode && bpos < len(hrrBytes) {
+				doWrite = true // and writes the whole HelloRetryRequest before it reads on
+			}
 			if doWrite {
 				n := len(bstream) - bpos
 				switch rapid.IntRange(0, 3).Draw(t, "wsize") {
@@ -269,13 +333,9 @@ func TestC07(t *testing.T) {
 			e := guard(func() error { var e error; n, e = c.Read(buf); return e })
 			ops = append(ops, fmt.Sprintf("r%d=%d", bs, n))
 			got = append(got, buf[:n]...)
-			if !bytes.HasPrefix(want, got) {
-				rp["ops"] = ops
-				d := 0
-				for d < len(got) && d < len(want) && got[d] == want[d] {
-					d++
-				}
-				if !(d == 1 || d == 2) || !bytes.Equal(got[3:], want[3:min(len(want), len(got))]) {
+			for d := len(got) - n; d < len(got); d++ {
+				if d >= len(want) || (got[d] != want[d] && !slices.Contains(vmask, d)) {
+					rp["ops"] = ops
 					ev.Violation(t, "C07", rp, "bytes read from the Conn diverge from the expected stream at offset %d (read %d so far)", d, len(got))
 				}
 			}
@@ -302,7 +362,7 @@ func TestC07(t *testing.T) {
 			rp["ops"] = ops
 			ev.Violation(t, "C07", rp, "after the backend stream ended the client has %d of %d bytes", len(w), len(bstream))
 		}
-		if len(got) != len(want) || !bytes.Equal(got[3:], want[3:]) {
+		if len(got) != len(want) || !bytes.Equal(masked(got), wantM) {
 			rp["ops"] = ops
 			ev.Violation(t, "C07", rp, "backend received %d bytes, expected %d", len(got), len(want))
 		}
